@@ -229,7 +229,21 @@ func (rp *ringPair) apply(o ringOp) (what string, msg string) {
 		}
 		return what, ""
 	case "Do":
-		return fmt.Sprintf("node%d.Do", a), rp.compareAround(a)
+		// Do first, before anything else (Len, Next, ...) touches the element: on a zero-value element Do itself has
+		// to cope with the lazy initialisation
+		first := rp.pristine[a]
+		var kf, sf []int
+		rp.k[a].Do(func(v int) { kf = append(kf, v) })
+		rp.s[a].Do(func(v any) { sf = append(sf, v.(int)) })
+		rp.pristine[a] = false
+		what = fmt.Sprintf("node%d.Do", a)
+		if first {
+			what += "(first method on a zero-value element)"
+		}
+		if fmt.Sprint(kf) != fmt.Sprint(sf) {
+			return what, fmt.Sprintf("Do visits: kit %v, container/ring %v", kf, sf)
+		}
+		return what, rp.compareAround(a)
 	case "NilLenDo":
 		var k *kring.Ring[int]
 		var s *cring.Ring
